@@ -148,6 +148,25 @@ def standard_lattice(seed, quick):
     return cfgs
 
 
+def option_sweep(kind, seed):
+    """Every valid single option value of the C20 alphabet as a real-run configuration, so that the
+    monitors of C01 / C03 / C05 / C09 also watch the options that are in no hand-written lattice.
+    Whether such a run completes at all is C20's business: `sweep_errs` drops run failures."""
+    from checks import c20
+
+    out = []
+    for c in c20.cases(seed, True, pairwise=False):
+        if c["kind"] == kind and not c["invalid"]:
+            out.append(dict(c, sweep=True))
+    return out
+
+
+def sweep_errs(cfg, errs):
+    if not cfg.get("sweep"):
+        return errs
+    return [(c, d) for c, d in errs if not (c.startswith("run-raises") or c.startswith("run-did-not-finish") or c.startswith("harness"))]
+
+
 def cfg_key(cfg):
     kw = cfg.get("kwargs", {})
     parts = [cfg.get("kind", "std"), cfg.get("model", "G2")]
